@@ -160,7 +160,9 @@ def rand_params(rng, small=True):
     k = rng.choice([9, 11, 15, 21, 31, 32]) if small else rng.randint(9, 32)
     s = rng.choice([50, 100, 200, 500, 1000, 60000])
     m = rng.choice([15, 18, 20, 25, 32])
-    pack = 50
+    # -l / pack_size: only the sync-round length of single-file mode may depend on it; the format constant written to
+    # `params` and used to close packs is 50 whatever the option says (a reader takes the cardinality from params)
+    pack = rng.choice([50, 50, 50, 1, 2, 5, 20, 49, 51, 100, 1000])
     threads = rng.choice([1, 2, 3, 4, 8, 16])
     qcap = rng.choice([1 << 31, 1 << 31, 1 << 20, 4096, 600])
     ff = rng.choice([0, 0, 0, 0.1])
